@@ -586,8 +586,16 @@ def run(ctx):
             for _ in range(g.r.choice([1, 2, 3])):
                 st.append(derive_step(st[0], g))
         objects.append(st)
+    import json
+    ncorpus = 0
+    for f in sorted((vlib.VERIF / "corpus" / "C04").glob("*.json")):
+        cr = json.load(open(f))
+        cr = cr.get("replay", cr)
+        if "meta" in cr and "steps" in cr["meta"]:
+            objects.insert(0, U.unsnap(cr["meta"])["steps"])
+            ncorpus += 1
+    hist["corpus-objects"] = ncorpus
     if ctx.replay:
-        import json
         rm = U.unsnap(json.load(open(ctx.replay))["replay"]["meta"])
         objects = [rm["steps"] if isinstance(rm, dict) and "steps" in rm else [rm]]
     ohl = []
